@@ -109,7 +109,7 @@ static const br_sslrec_out_class stub_out_vtable = { sizeof(br_sslrec_out_cbc_co
 /* ------------------------------------------------------------------ */
 /* handshake coroutine contract stub */
 
-static int hs_calls, hs_action_seen, hs_in_offered_appdata;
+static int hs_calls, hs_action_seen, hs_in_offered_appdata, hs_start_over_pending;
 static size_t hs_consumed, hs_produced;
 
 static void draw_out_overheads(br_ssl_engine_context *cc)
@@ -138,6 +138,14 @@ static void stub_hsrun(void *t0ctx)
 	hs_calls++;
 	CHECK(hs_calls <= 3, "coroutine resumed at most three times per API call in this model");
 	if (cc->action) hs_action_seen = cc->action;
+	/* The real handshake programs start a (re)negotiation on an explicit request (action 2 while application_data == 1,
+	   ssl_hs_common.t0 wait-co) or on an incoming handshake message while application data flows (main loops of
+	   ssl_hs_client.t0 / ssl_hs_server.t0); do-handshake then sets application_data = 0 and record_type_out = 22 at once,
+	   WITHOUT flush-record (ssl_hs_client.t0:1158-1164, ssl_hs_server.t0:1382-1384): application payload still buffered
+	   at that moment can no longer be sent (flush() needs application_data & 1; the processor is offered no room). */
+	if (cc->application_data == 1 && br_ssl_engine_has_pld_to_send(cc)
+		&& (cc->action == 2 || (cc->hlen_in > 0 && cc->record_type_in == BR_SSL_HANDSHAKE)))
+		hs_start_over_pending = 1;
 	CHECK(cc->hlen_in == 0 || (cc->hbuf_in >= IBUF + 5 && cc->hbuf_in + cc->hlen_in <= IBUF + ILEN), "handshake input region inside ibuf");
 	CHECK(cc->hlen_out == 0 || (cc->hbuf_out >= OBUF + 5 && cc->hbuf_out + cc->hlen_out <= OBUF + OLEN), "handshake output region inside obuf");
 	CHECK(cc->hlen_in == 0 || cc->record_type_in != BR_SSL_APPLICATION_DATA, "application data is never offered to the handshake coroutine");
@@ -371,6 +379,7 @@ int main(void)
 	int pre_incrypt = cc.incrypt;
 	unsigned char pre_ad = cc.application_data;
 	br_ssl_engine_recvrec_ack(&cc, n);
+	CHECK(!hs_start_over_pending, "an incoming handshake message is never handed to the handshake processor over unflushed application data (peer-initiated renegotiation; C19)");
 	/* C02.c */
 	if (dec_null) {
 		CHECK(br_ssl_engine_closed(&cc) && cc.err == BR_ERR_BAD_MAC, "a record rejected by the record layer closes the engine with BR_ERR_BAD_MAC");
@@ -492,6 +501,8 @@ int main(void)
 		int r = br_ssl_engine_renegotiate(&cc);
 		CHECK(r == !refuse, "renegotiate refused exactly when disabled, unsupported by the peer, or unread data is pending");
 		CHECK(refuse ? hs_calls == 0 : (hs_calls >= 1 && hs_action_seen == 2), "coroutine entered with the renegotiate action only when accepted");
+		CHECK(!hs_start_over_pending, "a renegotiation is never handed to the handshake processor over unflushed application data (C19: the bytes written before the request must still reach the peer)");
+		if (!refuse && cc.oxa != cc.oxb && hs_calls >= 1) { WITNESS_POINT("renegotiate with a record to send"); }
 		if (refuse) { WITNESS_POINT("renegotiate refused"); } else { WITNESS_POINT("renegotiate accepted"); }
 	}
 #elif OP == OP_NEWFRAG
